@@ -35,7 +35,9 @@ def gen_cases(seed, n, feats, pk=False):
             # duplicate outer rows; cases with a scalar subquery use tables without duplicate rows
             for t in db:
                 db[t] = [list(r) for r in dict.fromkeys(tuple(r) for r in db[t])]
-        out.append({"db": db, "q": q, "sql": G.sql_query(q), "pk": pk})
+        # every third query with derived tables is written with a WITH clause instead
+        sql = G.sql_query_cte(q) if i % 3 == 0 else G.sql_query(q)
+        out.append({"db": db, "q": q, "sql": sql, "pk": pk})
     return out
 
 
